@@ -16,7 +16,7 @@ REQUIRES(buf == NULL || len == 0 || len > 256 || WR_OK(buf, len))
 ASSIGNS(buf != NULL && len >= 1 && len <= 256: OBJ_UPTO(buf, len); G_rb_fail, G_rb_calls, G_rb_buf, G_rb_len)
 ENSURES(RET == 1 || RET == -1)
 ENSURES((buf == NULL || len == 0 || len > 256) IMPLIES RET == -1)
-ENSURES(G_rb_calls == OLD(G_rb_calls) + 1 && G_rb_buf == (const void *)buf && G_rb_len == len)
+ENSURES(G_rb_calls == OLD(G_rb_calls) + 1 && G_rb_buf == (size_t)buf && G_rb_len == len)
 ENSURES(RET == 1 ? G_rb_fail == OLD(G_rb_fail) : G_rb_fail == 1)
 ;
 #endif
